@@ -443,7 +443,8 @@ def run(ctx: core.Ctx):
         rule="write: random (seq, payload) byte-for-byte against write_bytes, lengths 0/1/M-1/M/M+1(/kM/kM+1) against frame_lens "
              "and through a reference reassembler and the real reader; read: generated packet streams (valid, bad seq, zero-length, "
              "truncated) under every 1-cut, sampled/all 2-cuts, 1-byte chunks and random multi-cuts against Wire.feeds incl. the "
-             "end-of-input outcome; whole server: reference conversation under every 1-cut, 2-cuts, random multi-cuts, 1-byte chunks. "
+             "end-of-input outcome; SEQUENCES of client payloads on one stream with exact multiples of 2^24-1 among them (whole, header-split, "
+             "65537-byte chunks) and two PINGs after long data of k*(2^24-1) bytes through the whole server; whole server: reference conversation under every 1-cut, 2-cuts, random multi-cuts, 1-byte chunks. "
              "distinct = distinct (kind, input) tuples; non-trivial = more than one chunk or a boundary length",
         samples=samples,
         distinct=len(distinct) + nconv,
